@@ -91,6 +91,8 @@ type world struct {
 	composeErr error
 	fnOverride func(context.Context, string, *fnv1.RunFunctionRequest) (*fnv1.RunFunctionResponse, error)
 	rfail      map[string]bool // PT: templates that cannot be rendered right now
+	upgrading  int             // reconciles the managed-fields upgrade still needs (environment step "legacy")
+	cdw        int             // applied writes to composed resources in this reconcile
 	missed     map[string]bool // composed resources the cache missed in this reconcile
 	ver        int             // the apiVersion the desired resources are written at: ex.org/v<ver>
 }
@@ -194,7 +196,7 @@ func (w *world) emit(ev string, m map[string]any) {
 	base := map[string]any{"ev": ev, "scenario": w.scenID, "mode": w.mode, "actor": "xr", "rec": w.recNo,
 		"verb": "", "kind": "", "target": "none", "abs": "", "outcome": "", "injected": "", "applied": false, "noop": false,
 		"pfail": w.pfail, "want": strs(w.wantRec), "result": "", "faulty": false, "steady": false, "prevDigest": w.prevDig,
-		"gcd": strs(w.gcd), "vanished": strs(w.vanished), "start": map[string]any{"refs": st["refs"], "objs": st["objs"]}, "post": w.post()}
+		"gcd": strs(w.gcd), "vanished": strs(w.vanished), "cdw": w.cdw, "failKind": w.failKind, "start": map[string]any{"refs": st["refs"], "objs": st["objs"]}, "post": w.post()}
 	for k, v := range m {
 		base[k] = v
 	}
@@ -265,6 +267,9 @@ func (w *world) onEvent(e *simapi.Event) {
 		target = w.idOf(e.Name)
 	}
 	applied := e.Applied && !e.DryRun
+	if kind == "cd" && applied && !e.Noop && e.Actor != "env" {
+		w.cdw++ // composed resources written in this reconcile, by whatever call
+	}
 	if kind == "cd" && e.Verb == "delete" && applied {
 		w.gcd = append(w.gcd, target)
 	}
@@ -379,6 +384,19 @@ func (w *world) env(e replay.Entry) {
 		w.ver = 3 - w.ver
 		if w.mode == "PT" {
 			w.setTemplates()
+		}
+	case "legacy":
+		w.upgrading = 2
+		// every composed resource the XR controls gets the managed fields a client-side-apply writer leaves behind
+		for _, o := range w.s.All(cdGVK.GroupKind()) {
+			if c := metav1.GetControllerOf(o); c == nil || c.UID != w.xrUID {
+				continue
+			}
+			w.s.Mutate(simapi.KeyOf(o), func(u *unstructured.Unstructured) {
+				u.SetManagedFields([]metav1.ManagedFieldsEntry{{Manager: "crossplane", Operation: metav1.ManagedFieldsOperationUpdate,
+					APIVersion: u.GetAPIVersion(), FieldsType: "FieldsV1",
+					FieldsV1: &metav1.FieldsV1{Raw: []byte(`{"f:metadata":{"f:annotations":{".":{},"f:crossplane.io/composition-resource-name":{}},"f:ownerReferences":{}},"f:spec":{".":{},"f:param":{}}}`)}}})
+			})
 		}
 	case "forge":
 		// the author's desired resources now carry (or no longer carry) a composition-resource-name annotation that
@@ -644,6 +662,7 @@ func (w *world) reconcile(al *replay.Aligner, sw *sweep) int {
 	}
 	w.al = al
 	w.pfail, w.failKind, w.inCompose, w.gcd, w.fnCalls, w.reqRound = false, "", false, nil, 0, 0
+	w.cdw = 0
 	w.vanished = nil
 	w.missed = map[string]bool{}
 	w.composed, w.composeErr = false, nil
@@ -688,6 +707,14 @@ func (w *world) reconcile(al *replay.Aligner, sw *sweep) int {
 	}
 	thisOK := res == "ok" && !faulty && !w.pfail && w.quiet && !unrendered
 	steady := thisOK && w.prevOK
+	if w.upgrading > 0 {
+		// the client-side to server-side apply upgrade of the managed fields takes two reconciles by design (clear and apply,
+		// then drop "before-first-apply"): the composed state has converged only after them
+		if thisOK {
+			w.upgrading--
+		}
+		steady = false
+	}
 	w.emit("end", map[string]any{"result": res, "faulty": faulty, "steady": steady})
 	w.prevOK = thisOK
 	w.prevDig = p["digest"].(string)
